@@ -57,7 +57,7 @@ def _mutation_sites(fi, name):
 def r1(ctx):
     ana = ctx.ana
     fi = ana.func(BYCL)
-    b = ana.builder(fi, no_inline=lambda f: True)
+    b = ana.builder(fi, no_inline=ana.known)
     cfg = ana.cfg(fi)
     data, m = Sym(fi.params[0]), Sym(fi.params[1])
     rets = [n for n in cfg.nodes if n.kind == "stmt" and isinstance(n.ast, ast.Return)]
@@ -114,7 +114,7 @@ def r1(ctx):
     extra = _mutation_sites(ml, var)
     ctx.check(not extra, ml, "the per-cluster lists are not modified between their construction and the flattening", role="insert:main-loop",
               expected="no mutation", found="; ".join(unparse(e, 50) for e in extra))
-    bm = ana.builder(ml, no_inline=lambda f: True)
+    bm = ana.builder(ml, no_inline=ana.known)
     ctor = calls_to(ana, ml, "fast_ticc.containers.results.SingleDataSeriesResult")
     kw = {k.arg: k.value for k in ctor[0].node.keywords}
     t = bm.term(kw["all_log_likelihood"])
@@ -131,7 +131,7 @@ def r1(ctx):
 def r2(ctx):
     ana = ctx.ana
     ml = ana.func("main_loop.fit_stacked_data")
-    bm = ana.builder(ml, no_inline=lambda f: True)
+    bm = ana.builder(ml, no_inline=ana.known)
     ctor = calls_to(ana, ml, "fast_ticc.containers.results.SingleDataSeriesResult")
     if len(ctor) != 1:
         raise AnalysisError("SingleDataSeriesResult constructor call not found exactly once")
